@@ -60,7 +60,7 @@ var pureLib = map[string]string{
 	"(*sync.WaitGroup).Add": "", "(*sync.WaitGroup).Done": "", "(*sync.WaitGroup).Wait": "",
 	"time.Now": "", "time.Since": "", "(time.Time).Sub": "", "(time.Time).Add": "", "time.Sleep": "",
 	"context.WithCancel": "", "context.WithValue": "", "context.Background": "", "(*net/http.Request).Context": "",
-	"sort.Strings": "havoc:string", "math.MaxInt64": "",
+	"sort.Strings": "havoc:string", "math.MaxInt64": "", "math.Trunc": "trunc", "math.Abs": "abs",
 	"github.com/samsarahq/go/oops.Wrapf": "nonnil-if-arg0", "github.com/samsarahq/go/oops.Errorf": "nonnil",
 	"log.Println": "", "log.Printf": "",
 	// writes confined to the buffer object itself, whose content no clause reads
@@ -320,6 +320,18 @@ func (vc *FnVC) call(c ssa.CallInstruction, val *ssa.Call) {
 		if isPure {
 			vc.trustedUsed["library: "+firstNonEmpty(full, mname)+" (no heap effect)"] = true
 			vc.pureCall(firstNonEmpty(full, mname), args, results, sig)
+			if facts == "trunc" && nres == 1 && len(args) == 1 {
+				// math.Trunc over the reals (floats are modelled as mathematical reals): the integer part towards zero
+				x := args[0].t
+				vc.assume("true", app("=", results[0].t, app("ite", app(">=", x, "0.0"), app("to_real", app("to_int", x)), app("-", app("to_real", app("to_int", app("-", x)))))))
+				// a consequence the solvers do not find by themselves in mixed integer / real goals: x is its own integer part
+				// exactly when it is a whole number
+				vc.assume("true", app("=", app("=", x, results[0].t), app("is_int", x)))
+			}
+			if facts == "abs" && nres == 1 && len(args) == 1 {
+				x := args[0].t
+				vc.assume("true", app("=", results[0].t, app("ite", app(">=", x, "0.0"), x, app("-", x))))
+			}
 			if facts == "nonnil" && nres > 0 {
 				vc.assume("true", not(app("=", results[nres-1].t, "anil")))
 			}
